@@ -279,7 +279,8 @@ impl Hist {
             }
             "advance" => { let ns = t.u64(); self.w.advance(ns); "ok".into() }
             "fault" => { self.pending_fault = Some(t.u64()); "ok".into() }
-            "snap" => self.snapshot(),
+            // (a contract query that panics must not take the harness down: the snapshot then differs from the model's)
+            "snap" => { match crate::guarded(|| Ok(self.snapshot())) { Ok(s) => s, Err(_) => "snapshot-query-panicked".to_string() } }
             "q" => { let l = line.to_string(); crate::guarded(|| Ok(self.query(&l))).unwrap_or_else(|_| "err".to_string()) }
             _ => "bad-op".into(),
         }
@@ -607,7 +608,10 @@ impl Runner {
         self.log.push(line.to_string());
         let before = self.h.last_obs.clone();
         self.ms.fault_active = self.h.pending_fault.is_some() && !line.starts_with("fault");
-        if line.starts_with("tx ") { crate::monitors::pre_tx_quotes(&self.h, &mut self.ms, line); }
+        if line.starts_with("tx ") {
+            let h = &self.h; let ms = &mut self.ms;
+            let _ = crate::guarded(|| { crate::monitors::pre_tx_quotes(h, ms, line); Ok(()) });
+        }
         let res = self.h.exec_line(line);
         o.line(line, &res);
         if !line.starts_with("fault") {
